@@ -36,6 +36,13 @@ def make_query(rng, st):
         if rng.random() < 0.7:
             sc["path"] = [rng.choice([["gwc"], ["wc"], ["iwc"], ["rec"], ["s", None, None, None], ["t", ["a", 0, "b", 1]]])] + \
                 [x for x in sc["path"] if x[0] != "rec"][:2]
+    if st.get("climb_in_has") and rng.random() < st["climb_in_has"]:
+        # parent steps hidden inside a filter of a has-path: they climb above the candidate of the outer filter
+        key = rng.choice(gen.KEYS)
+        inner = ["f", ["has", ["p", [["par"]] * rng.choice([1, 2, 2, 3]) + rng.choice([[], [["k", key]], [["gwc"]]])], []]]
+        outer = ["f", [rng.choice(["has", "has", "not"]), ["p", [rng.choice([["gwc"], ["wc"], ["k", key], ["iwc"]]), inner]], []]]
+        pos = rng.randint(1, len(sc["path"])) if sc["path"] else 0
+        sc["path"] = [x for x in sc["path"][:pos]] + [outer] + sc["path"][pos:]
     if st.get("nexts") == "drain" and sc["api"] in ("find", "find_matches"):
         sc["nexts"] = "drain"
         sc["extra"] = rng.choice([0, 1])
@@ -271,9 +278,9 @@ def run_corpus(ctx, cfg):
 
 # ------------------------------------------------------------------ registry
 
-def Q(profile="all", pred="mixed", apis=None, src=None, maxlen=5, nexts=None, share=1.0, untraced=0.0, up=0.0):
+def Q(profile="all", pred="mixed", apis=None, src=None, maxlen=5, nexts=None, share=1.0, untraced=0.0, up=0.0, climb_in_has=0.0):
     return dict(kind="q", profile=profile, pred_profile=pred, apis=apis, src=src, maxlen=maxlen, nexts=nexts, share=share,
-                untraced=untraced, up=up)
+                untraced=untraced, up=up, climb_in_has=climb_in_has)
 
 
 ALL_APIS = ["find_matches", "find", "get_match", "get"]
@@ -400,7 +407,8 @@ register("C12", streams=[Q("all", apis=ALL_APIS, src=True, untraced=0.4, share=3
                          Q("nopar", apis=ALL_APIS, src=True, untraced=0.4, share=1, up=1.0)],
          observables=["full_results"], oracles=[oracles.concat_oracle],
          rule="pairs (p, q): every API function run on q from the k-th match of p, compared with the specification evaluated from the same match; p+q concatenation checked on the python side")
-register("C13", streams=[Q("parent", apis=["find_matches"], src=None, share=2), Q("parent", apis=ALL_APIS, src=True, share=1, untraced=0.4)],
+register("C13", streams=[Q("parent", apis=["find_matches"], src=None, share=2, untraced=0.3, climb_in_has=0.25),
+                         Q("parent", apis=ALL_APIS, src=True, share=1, untraced=0.4, climb_in_has=0.2)],
          observables=["full_results"],
          extra=[families.MutateFamily("mset", 300, 15000, "set_match from a Match whose target path climbs above the source (outcome, returned location, object graph)"),
                 families.BuilderFamily("dag", 300, 15000, "parent steps written through the builders (path / pathd): renderings and selections")],
